@@ -36,11 +36,25 @@ func verifIdx(names S, s string) int {
 
 // VerifC05Order: phase order, visibility, veto and exactly-once rules of the handler lifecycle.
 func VerifC05Order() {
-	s := verifNewScn(vParam("n", 2), false, vParam("multi", 0) == 1, vParam("after", 0) == 1, true, false, true)
+	s := verifNewScn(vParam("n", 2), vParam("auto", 0) == 1, vParam("multi", 0) == 1, vParam("after", 0) == 1, true, true, true)
 	s.inject(false)
 	kind, called, res := s.mutate()
 	post := s.m.ActiveStates(nil)
 	postT := s.m.time(nil)
+	// only the mutation's own transition (an auto mutation may follow in the same drain)
+	for _, e := range s.tr.log {
+		if e.kind == "end" {
+			postT = e.after
+			post = nil
+			for i, name := range s.m.stateNames {
+				if postT[i]%2 == 1 {
+					post = append(post, name)
+				}
+			}
+			s.calls = s.calls[:e.ncalls]
+			break
+		}
+	}
 	vReach("order")
 	vLog("res", uint64(res))
 	vLog("ncalls", uint64(len(s.calls)))
